@@ -45,7 +45,7 @@ def build(d):
     """data of a case, reproducible from the descriptor"""
     rng = np.random.default_rng(d["case_seed"])
     N, shape, n, nc = d["N"], tuple(d["shape"]), d["n"], d["nc"]
-    X, Q, L = K.make_data(rng, N, shape, n, nc, dup=d.get("dup", 0.3), label_kind=d.get("labels") or "scalar")
+    X, Q, L = K.make_data(rng, N, shape, n, nc, dup=d.get("dup", 0.3), label_kind=d.get("labels") or "scalar", mode=d.get("dmode"))
     cls = gen_classes(rng, N, nc, d["cmode"])
     qcls = rng.integers(0, nc, size=n)
     if d.get("tie_nun") and N >= 3:
@@ -408,6 +408,12 @@ def gen_cases(ctx):
                         cases.append(gen_one(rng, thorough, method=method, N=N, bs=bs, k=k, simple=True))
     for _ in range((1200 if thorough else 100) * scale):
         cases.append(gen_one(rng, thorough))
+    # common offset of cases and queries (translation-invariant distances, no projection)
+    for j in range((24 if thorough else 8) * ctx.budget_scale):
+        d = gen_one(rng, thorough, method=METHODS[j % 4], simple=True)
+        d["dmode"] = "offset"
+        d["dist"] = {"name": ["euclidean", "mink2", "chebyshev", "mink3"][(j // 4 + j) % 4]}
+        cases.append(d)
     return cases
 
 
